@@ -129,6 +129,10 @@ func init() {
 				return splitterOrderCase(c)
 			case 4:
 				return selectorOrderCase(c)
+			case 6:
+				if c.Tape.Choose(simrt.StGen, 2, 0) == 1 {
+					return ghostOrderCase(c)
+				}
 			case 5:
 				if c.Tape.Choose(simrt.StGen, 2, 0) == 1 {
 					return repeatedInputOrderCase(c)
@@ -194,6 +198,43 @@ func init() {
 			}
 			return orderOracle(inc, ex)
 		}})
+}
+
+// ghostOrderCase: one of the files a FileSource lists does not exist (yet): its
+// task fails when the command opens it and the program stops - but whatever
+// left the process before that must be a PREFIX of the arrival order: later
+// inputs whose files do exist may not overtake it.
+func ghostOrderCase(c *Case) Verdict {
+	t := c.Tape
+	w := &WF{Name: "wf", Sources: map[string]string{}, MaxTasks: 2 + t.Choose(simrt.StGen, 4, 0), Bufsize: bufsizeOf(t)}
+	n := 2 + t.Choose(simrt.StGen, 4, 0)
+	s := srcNode(w, "src0", n, "")
+	ghost := w.Nodes[s].Files[t.Choose(simrt.StGen, n-1, 0)] // (never the last one)
+	delete(w.Sources, ghost)
+	w.Ghost = ghost
+	p0 := oneToOne(w, "p0", Edge{s, "out"})
+	w.Nodes[p0].Rec = true
+	oneToOne(w, "use", Edge{p0, "o0"})
+	c.Sample = "a listed file does not exist (" + ghost + "): " + sample(w)
+	c.Fault("missing-source-file")
+	ex := Eval(w)
+	inc := RunInc(w, c.Tape, nil, 0, IncOpts{KillAt: -1, Strategy: strategyOf(c.Tape), Trace: c.Trace})
+	c.Absorb(inc)
+	c.Tasks = max(c.Tasks, 2)
+	if v, ok := inconclusiveEnd(inc); ok {
+		return v
+	}
+	var want []string
+	for _, it := range ex.Streams["p0.o0"].Items {
+		want = append(want, it.Path)
+	}
+	got := inc.RT.Recorded[recKey("p0", "o0", "use", "a")]
+	for i, p := range got {
+		if i >= len(want) || want[i] != p {
+			return Viol("out-of-order", "missing-file", "edge p0.o0->use.a: items left as %v although the inputs arrived as %v (the task of the missing file %s was overtaken)", got, want, ghost)
+		}
+	}
+	return OK()
 }
 
 // --- C09 ------------------------------------------------------------------------------
